@@ -898,7 +898,7 @@ static void RunAll(long total, GetCase getCase)
 				sh->partial[0][0] = sh->partial[1][0] = sh->partial[2][0] = 0;
 				std::string op = OpPart(c);
 				fputs(op.c_str(), g_Out); fputs(" | ", g_Out); fflush(g_Out);
-				alarm(c.kind == 'X' ? 5 : 20);
+				alarm(c.kind == 'X' ? 5 : 8);
 				if (c.kind == 'X') {
 					std::string r = Observe(c, 0);
 					alarm(0);
@@ -976,6 +976,7 @@ int main(int argc, char **argv)
 				if (c.kind == 'X') fprintf(g_Out, "--- X %s\n%s\n", c.id.c_str(), c.text.c_str());
 				else fprintf(g_Out, "--- P %s (min)\n%s\n--- (full)\n%s\n", c.id.c_str(), PrintProgram(c.ast, false).c_str(), PrintProgram(c.ast, true).c_str());
 			}
+			fflush(g_Out);
 			_exit(0);
 		}
 		RunAll((long)lines.size(), getLine);
